@@ -168,7 +168,7 @@ pub fn run_agenda(s: &mut Src, ctx: &mut Ctx) -> Verdict {
         d
     });
 
-    let mut ag = AdvancedAgenda::new();
+    let mut ag = crate::core::new_or_default(AdvancedAgenda::new);
     // Creation instants are spread on one of four scales (a pure function of the case): the generated 1 us steps as they
     // are, or stretched to 1 ms, 0.3 s or 0.7 s steps -- an activation may well have been created seconds after the
     // agenda (the field is public, an `Instant` in the near future is a legal value). Order and ties are unchanged.
